@@ -80,7 +80,7 @@ func advOp(t *sim.Tape, fsKind string, uniq string) fsx.Op {
 		o.P, o.Q = []string{"f", "/b", "", "..", "/a/l", "l2"}[t.Int(6)], p()
 	case "OpenFile":
 		o.P = p()
-		o.Flag = openFlagSets[t.Int(len(openFlagSets))]
+		o.Flag = genFlags(t)
 		o.Perm = []uint32{0o644, 0, 0o7777, 0o200}[t.Int(4)]
 		o.H = t.Int(3)
 	case "Create", "Open":
